@@ -378,7 +378,17 @@ struct SlabEngine : Engine {
 		for (int t = 1; t < MAXT; t++) if (t != me && cur[t].inflight_h != -1) { probe(P_lock_contention); break; }
 		c.inflight_h = -2;
 	}
-	void end_call(int me) { cur[me].inflight_h = -1; }
+	void end_call(int me) {
+		cur[me].inflight_h = -1;
+		// quiescent instant in single-task runs: the requested bytes of EVERY live block must be unpoisoned
+		if (single && pi.poison) for (auto &kv : live_by_addr) {
+			Block &b = blk[kv.second];
+			if (!b.req || b.inflight) continue;
+			size_t head = b.req < 256 ? b.req : 256;
+			if (memchr(pshadow + kv.first, 1, head) || (b.req > 256 && memchr(pshadow + kv.first + b.req - 64, 1, 64)))
+				violation("not_unpoisoned", "after a pool call requested bytes of live block #%d (+0x%llx, %zu requested) are poisoned", kv.second, (unsigned long long)kv.first, b.req);
+		}
+	}
 
 	void fill(Block &b) {
 		size_t n = b.req;
